@@ -1,7 +1,1153 @@
-//! C19 placeholder (filled in next).
-use crate::util::Rng;
+//! C19: rule chains (harness as the wire) and the built-in fixtures' scheduler
+//! (`fixture::ClientServer`, `fixture::lo`) driven by per-step scripts.
+
+use std::cell::RefCell;
+use std::collections::BTreeMap;
+use std::future::Future;
+use std::pin::Pin;
+use std::rc::Rc;
+use std::task::Poll;
+use std::time::Duration;
+
+use turmoil_net::fixture::{self, ClientServer};
+use turmoil_net::shim::tokio::net::{TcpListener, TcpStream, UdpSocket};
+use turmoil_net::{rule, EnterGuard, HostId, Net, Packet, RuleGuard, Transport, Verdict};
+
+use crate::util::*;
+
+const TICK_US: u64 = 1000;
+
+#[derive(Clone, Copy, PartialEq, Eq, Debug)]
+pub enum V {
+    P,
+    X,
+    D(u64),
+}
+
+impl V {
+    fn tok(&self) -> String {
+        match self {
+            V::P => "P".into(),
+            V::X => "X".into(),
+            V::D(us) => format!("D{us}"),
+        }
+    }
+    fn parse(s: &str) -> Option<V> {
+        match s {
+            "P" => Some(V::P),
+            "X" => Some(V::X),
+            _ => s.strip_prefix('D')?.parse().ok().map(V::D),
+        }
+    }
+    fn verdict(&self) -> Verdict {
+        match self {
+            V::P => Verdict::Pass,
+            V::X => Verdict::Drop,
+            V::D(us) => Verdict::Deliver(Duration::from_micros(*us)),
+        }
+    }
+    fn of(v: Verdict) -> V {
+        match v {
+            Verdict::Pass => V::P,
+            Verdict::Drop => V::X,
+            Verdict::Deliver(d) => V::D(d.as_micros() as u64),
+        }
+    }
+}
+
+#[derive(Clone, Debug)]
+pub struct RuleSpec {
+    label: u32,
+    table: Vec<V>,
+    tcp: V,
+}
+
+#[derive(Clone, Debug)]
+pub enum SOp {
+    Install { h: Option<usize>, spec: RuleSpec, mode: String },
+    GDrop { h: Option<usize>, label: u32 },
+    Forget { h: Option<usize>, label: u32 },
+    USend { h: usize, s: u32, ip: Ip, port: u16, tag: u32 },
+    TConnect { h: usize, c: u32, ip: Ip, port: u16 },
+    TPoll { h: usize, c: u32 },
+    TAccept { h: usize, l: u32, c: u32 },
+    TWrite { h: usize, c: u32, n: u32 },
+    TRead { h: usize, c: u32 },
+    TClose { h: usize, c: u32 },
+    Enter,
+    Step,
+    Drain,
+}
+
+fn actor(h: &Option<usize>) -> String {
+    match h {
+        Some(h) => format!("h{h}"),
+        None => "ctl".into(),
+    }
+}
+
+impl SOp {
+    pub fn line(&self) -> String {
+        match self {
+            SOp::Install { h, spec, mode } => {
+                let t: Vec<String> = spec.table.iter().map(|v| v.tok()).collect();
+                format!(
+                    "OP {} install r{} mode={} table={} tcp={}",
+                    actor(h),
+                    spec.label,
+                    mode,
+                    t.join(","),
+                    spec.tcp.tok()
+                )
+            }
+            SOp::GDrop { h, label } => format!("OP {} gdrop r{label}", actor(h)),
+            SOp::Forget { h, label } => format!("OP {} forget r{label}", actor(h)),
+            SOp::USend { h, s, ip, port, tag } => format!("OP h{h} usend s{s} {} {port} {tag}", ip.tok()),
+            SOp::TConnect { h, c, ip, port } => format!("OP h{h} tconnect c{c} {} {port}", ip.tok()),
+            SOp::TPoll { h, c } => format!("OP h{h} tpoll c{c}"),
+            SOp::TAccept { h, l, c } => format!("OP h{h} taccept l{l} c{c}"),
+            SOp::TWrite { h, c, n } => format!("OP h{h} twrite c{c} {n}"),
+            SOp::TRead { h, c } => format!("OP h{h} tread c{c}"),
+            SOp::TClose { h, c } => format!("OP h{h} tclose c{c}"),
+            SOp::Enter => "OP ctl enter".into(),
+            SOp::Step => "OP wire step".into(),
+            SOp::Drain => "OP ctl drain".into(),
+        }
+    }
+
+    pub fn parse(line: &str) -> Option<SOp> {
+        let t: Vec<&str> = line.split_whitespace().collect();
+        if t.len() < 3 || t[0] != "OP" {
+            return None;
+        }
+        let h: Option<usize> = t[1].strip_prefix('h').and_then(|x| x.parse().ok());
+        let id = |i: usize, p: char| -> Option<u32> { t.get(i)?.strip_prefix(p)?.parse().ok() };
+        let num = |i: usize| -> Option<u32> { t.get(i)?.parse().ok() };
+        Some(match t[2] {
+            "install" => {
+                let mut mode = "guard".to_string();
+                let mut table = vec![];
+                let mut tcp = V::P;
+                for kv in &t[4..] {
+                    let (k, v) = kv.split_once('=')?;
+                    match k {
+                        "mode" => mode = v.to_string(),
+                        "table" => table = v.split(',').filter_map(V::parse).collect(),
+                        "tcp" => tcp = V::parse(v)?,
+                        _ => {}
+                    }
+                }
+                SOp::Install { h, spec: RuleSpec { label: id(3, 'r')?, table, tcp }, mode }
+            }
+            "gdrop" => SOp::GDrop { h, label: id(3, 'r')? },
+            "forget" => SOp::Forget { h, label: id(3, 'r')? },
+            "usend" => SOp::USend { h: h?, s: id(3, 's')?, ip: Ip::parse(t.get(4)?)?, port: num(5)? as u16, tag: num(6)? },
+            "tconnect" => SOp::TConnect { h: h?, c: id(3, 'c')?, ip: Ip::parse(t.get(4)?)?, port: num(5)? as u16 },
+            "tpoll" => SOp::TPoll { h: h?, c: id(3, 'c')? },
+            "taccept" => SOp::TAccept { h: h?, l: id(3, 'l')?, c: id(4, 'c')? },
+            "twrite" => SOp::TWrite { h: h?, c: id(3, 'c')?, n: num(4)? },
+            "tread" => SOp::TRead { h: h?, c: id(3, 'c')? },
+            "tclose" => SOp::TClose { h: h?, c: id(3, 'c')? },
+            "enter" => SOp::Enter,
+            "step" => SOp::Step,
+            "drain" => SOp::Drain,
+            _ => return None,
+        })
+    }
+}
+
+/// Descriptor of a packet as rules see it.
+fn desc(p: &Packet) -> String {
+    pkt_tok(p)
+}
+
+#[derive(Clone)]
+struct RuleLog {
+    t_us: u64,
+    label: u32,
+    desc: String,
+    v: V,
+}
+
 #[derive(Default)]
-pub struct Stats {}
-impl Stats { pub fn summary(&self) -> String { String::new() } }
-pub fn gen_case(_f: &str, _rng: &mut Rng, _st: &mut Stats) -> Vec<String> { vec![] }
-pub fn replay(_f: &str, _lines: &[String]) -> Vec<String> { vec![] }
+struct Shared {
+    start: Option<tokio::time::Instant>,
+    rlog: Vec<RuleLog>,
+    oplog: Vec<(u64, String, String)>,
+    arrivals: Vec<(u64, usize, u32, u32)>,
+    guards: BTreeMap<u32, RuleGuard>,
+    tcp_written: u64,
+    tcp_read: u64,
+}
+
+impl Shared {
+    fn now_us(&self) -> u64 {
+        match self.start {
+            Some(s) => (tokio::time::Instant::now() - s).as_micros() as u64,
+            None => 0,
+        }
+    }
+}
+
+type Sh = Rc<RefCell<Shared>>;
+
+fn mk_rule(spec: RuleSpec, sh: Sh) -> impl FnMut(&Packet) -> Verdict + 'static {
+    move |pkt: &Packet| {
+        let v = match &pkt.payload {
+            Transport::Udp(d) => {
+                if spec.table.is_empty() {
+                    V::P
+                } else {
+                    spec.table[(tag_of(&d.payload) as usize) % spec.table.len()]
+                }
+            }
+            Transport::Tcp(_) => spec.tcp,
+        };
+        let mut s = sh.borrow_mut();
+        let t_us = s.now_us();
+        s.rlog.push(RuleLog { t_us, label: spec.label, desc: desc(pkt), v });
+        v.verdict()
+    }
+}
+
+/// Static layout of a case.
+#[derive(Clone, Debug)]
+pub struct Layout {
+    pub fixture: String, // wire | cs | lo
+    pub addrs: Vec<Vec<Ip>>,
+    pub recv: Vec<(usize, u32, Ip, u16)>,
+    pub lsn: Vec<(usize, u32, Ip, u16)>,
+    pub steps: usize,
+}
+
+impl Layout {
+    fn cfg_line(&self) -> String {
+        let mut s = format!("CFG fixture={} hosts={}", self.fixture, self.addrs.len());
+        for (i, a) in self.addrs.iter().enumerate() {
+            let toks: Vec<String> = a.iter().map(|x| x.tok()).collect();
+            s.push_str(&format!(" h{}={}", i, join(&toks, ",")));
+        }
+        let r: Vec<String> = self.recv.iter().map(|(h, s, ip, p)| format!("h{h}.s{s}@{}:{p}", ip.tok())).collect();
+        let l: Vec<String> = self.lsn.iter().map(|(h, s, ip, p)| format!("h{h}.l{s}@{}:{p}", ip.tok())).collect();
+        s.push_str(&format!(" recv={} lsn={} steps={} tick_us={}", join(&r, ","), join(&l, ","), self.steps, TICK_US));
+        s
+    }
+
+    fn parse(line: &str) -> Layout {
+        let mut lay = Layout { fixture: "wire".into(), addrs: vec![], recv: vec![], lsn: vec![], steps: 0 };
+        let ep = |s: &str, p: char| -> Option<(usize, u32, Ip, u16)> {
+            let (a, b) = s.split_once('@')?;
+            let (h, sl) = a.split_once('.')?;
+            let (ip, port) = b.rsplit_once(':')?;
+            Some((h.strip_prefix('h')?.parse().ok()?, sl.strip_prefix(p)?.parse().ok()?, Ip::parse(ip)?, port.parse().ok()?))
+        };
+        for t in line.split_whitespace().skip(1) {
+            let Some((k, v)) = t.split_once('=') else { continue };
+            match k {
+                "fixture" => lay.fixture = v.to_string(),
+                "hosts" | "tick_us" => {}
+                "steps" => lay.steps = v.parse().unwrap_or(0),
+                "recv" => lay.recv = if v == "-" { vec![] } else { v.split(',').filter_map(|x| ep(x, 's')).collect() },
+                "lsn" => lay.lsn = if v == "-" { vec![] } else { v.split(',').filter_map(|x| ep(x, 'l')).collect() },
+                _ if k.starts_with('h') => {
+                    lay.addrs.push(if v == "-" { vec![] } else { v.split(',').filter_map(Ip::parse).collect() })
+                }
+                _ => {}
+            }
+        }
+        lay
+    }
+}
+
+#[derive(Default)]
+pub struct Stats {
+    pub cases: u64,
+    pub ops: BTreeMap<String, u64>,
+    pub verdicts: BTreeMap<String, u64>,
+    pub evals: u64,
+    pub arrivals: u64,
+}
+
+impl Stats {
+    pub fn summary(&self) -> String {
+        format!(
+            "cases={} ops={:?} rule-invocation verdicts={:?} evaluated packets={} arrivals={}",
+            self.cases, self.ops, self.verdicts, self.evals, self.arrivals
+        )
+    }
+    fn op(&mut self, name: &str) {
+        *self.ops.entry(name.to_string()).or_insert(0) += 1;
+    }
+}
+
+// ------------------------------------------------------------------ wire family
+
+struct WireWorld {
+    udp: BTreeMap<u32, (usize, UdpSocket)>,
+    lsn: BTreeMap<u32, (usize, TcpListener)>,
+    streams: BTreeMap<u32, (usize, TcpStream)>,
+    connecting: BTreeMap<u32, (usize, Pin<Box<dyn Future<Output = std::io::Result<TcpStream>>>>)>,
+    hosts: Vec<HostId>,
+    guard: Option<EnterGuard>,
+    net: Option<Net>,
+    sh: Sh,
+    lay: Layout,
+}
+
+impl Drop for WireWorld {
+    fn drop(&mut self) {
+        if let Some(g) = &self.guard {
+            let ids: Vec<u32> = self.connecting.keys().copied().collect();
+            for id in ids {
+                if let Some((h, f)) = self.connecting.remove(&id) {
+                    g.set_current(self.hosts[h]);
+                    drop(f);
+                }
+            }
+            let ids: Vec<u32> = self.streams.keys().copied().collect();
+            for id in ids {
+                if let Some((h, s)) = self.streams.remove(&id) {
+                    g.set_current(self.hosts[h]);
+                    drop(s);
+                }
+            }
+            let ids: Vec<u32> = self.lsn.keys().copied().collect();
+            for id in ids {
+                if let Some((h, s)) = self.lsn.remove(&id) {
+                    g.set_current(self.hosts[h]);
+                    drop(s);
+                }
+            }
+            let ids: Vec<u32> = self.udp.keys().copied().collect();
+            for id in ids {
+                if let Some((h, s)) = self.udp.remove(&id) {
+                    g.set_current(self.hosts[h]);
+                    drop(s);
+                }
+            }
+        }
+        // guards must go while our Net (if any) is still the installed one
+        self.sh.borrow_mut().guards.clear();
+        self.guard = None;
+    }
+}
+
+impl WireWorld {
+    fn new(lay: &Layout) -> WireWorld {
+        let mut net = Net::new();
+        let mut hosts = vec![];
+        for a in &lay.addrs {
+            let ips: Vec<std::net::IpAddr> = a.iter().map(|x| x.to_ip()).collect();
+            hosts.push(net.add_host(ips));
+        }
+        WireWorld {
+            udp: BTreeMap::new(),
+            lsn: BTreeMap::new(),
+            streams: BTreeMap::new(),
+            connecting: BTreeMap::new(),
+            hosts,
+            guard: None,
+            net: Some(net),
+            sh: Rc::new(RefCell::new(Shared::default())),
+            lay: lay.clone(),
+        }
+    }
+
+    fn cur(&self, h: usize) {
+        if let Some(g) = &self.guard {
+            g.set_current(self.hosts[h]);
+        }
+    }
+
+    /// Returns the lines that follow the OP line (ORA / OBS).
+    fn exec(&mut self, op: &SOp) -> Vec<String> {
+        let obs = |s: String| vec![format!("OBS {s}")];
+        match op {
+            SOp::Install { h, spec, mode } => {
+                let r = mk_rule(spec.clone(), self.sh.clone());
+                match mode.as_str() {
+                    "perm" => match self.net.as_mut() {
+                        Some(n) => {
+                            n.rule(r);
+                            obs("ok".into())
+                        }
+                        None => obs("err entered".into()),
+                    },
+                    "sguard" => match &self.guard {
+                        Some(g) => {
+                            let rg = g.rule(r);
+                            self.sh.borrow_mut().guards.insert(spec.label, rg);
+                            obs("ok".into())
+                        }
+                        None => obs("err notentered".into()),
+                    },
+                    _ => {
+                        if self.guard.is_none() {
+                            return obs("err notentered".into());
+                        }
+                        if let Some(h) = h {
+                            self.cur(*h);
+                        }
+                        let rg = rule(r);
+                        self.sh.borrow_mut().guards.insert(spec.label, rg);
+                        obs("ok".into())
+                    }
+                }
+            }
+            SOp::GDrop { label, .. } => {
+                let g = self.sh.borrow_mut().guards.remove(label);
+                match g {
+                    Some(g) => {
+                        drop(g);
+                        obs("ok".into())
+                    }
+                    None => obs("noguard".into()),
+                }
+            }
+            SOp::Forget { label, .. } => {
+                let g = self.sh.borrow_mut().guards.remove(label);
+                match g {
+                    Some(g) => {
+                        g.forget();
+                        obs("ok".into())
+                    }
+                    None => obs("noguard".into()),
+                }
+            }
+            SOp::Enter => {
+                let Some(net) = self.net.take() else { return obs("err entered".into()) };
+                self.guard = Some(net.enter());
+                for (h, s, ip, port) in self.lay.recv.clone() {
+                    self.cur(h);
+                    if let Ok(sock) = now_or_panic(UdpSocket::bind(ip.sa(port))) {
+                        self.udp.insert(s, (h, sock));
+                    }
+                }
+                for (h, s, ip, port) in self.lay.lsn.clone() {
+                    self.cur(h);
+                    if let Ok(l) = now_or_panic(TcpListener::bind(ip.sa(port))) {
+                        self.lsn.insert(s, (h, l));
+                    }
+                }
+                obs("ok".into())
+            }
+            SOp::USend { h, s, ip, port, tag } => {
+                let Some((hh, sock)) = self.udp.get(s) else { return obs("noslot".into()) };
+                if hh != h {
+                    return obs("noslot".into());
+                }
+                self.cur(*h);
+                match sock.try_send_to(&tag_bytes(*tag), ip.sa(*port)) {
+                    Ok(_) => obs("ok".into()),
+                    Err(e) => obs(format!("err {}", err_tok(&e))),
+                }
+            }
+            SOp::TConnect { h, c, ip, port } => {
+                if self.guard.is_none() || *h >= self.hosts.len() {
+                    return obs("nohost".into());
+                }
+                self.cur(*h);
+                let mut fut: Pin<Box<dyn Future<Output = std::io::Result<TcpStream>>>> =
+                    Box::pin(TcpStream::connect(ip.sa(*port)));
+                match poll_once(fut.as_mut()) {
+                    Poll::Ready(Ok(st)) => {
+                        self.streams.insert(*c, (*h, st));
+                        obs("ok".into())
+                    }
+                    Poll::Ready(Err(e)) => obs(format!("err {}", err_tok(&e))),
+                    Poll::Pending => {
+                        self.connecting.insert(*c, (*h, fut));
+                        obs("pending".into())
+                    }
+                }
+            }
+            SOp::TPoll { h, c } => {
+                let Some((hh, mut fut)) = self.connecting.remove(c) else { return obs("noslot".into()) };
+                self.cur(hh);
+                let _ = h;
+                match poll_once(fut.as_mut()) {
+                    Poll::Ready(Ok(st)) => {
+                        self.streams.insert(*c, (hh, st));
+                        obs("ok".into())
+                    }
+                    Poll::Ready(Err(e)) => obs(format!("err {}", err_tok(&e))),
+                    Poll::Pending => {
+                        self.connecting.insert(*c, (hh, fut));
+                        obs("pending".into())
+                    }
+                }
+            }
+            SOp::TAccept { h, l, c } => {
+                let Some((hh, lst)) = self.lsn.get(l) else { return obs("noslot".into()) };
+                let _ = h;
+                self.cur(*hh);
+                let r = {
+                    let mut f = Box::pin(lst.accept());
+                    poll_once(f.as_mut())
+                };
+                match r {
+                    Poll::Ready(Ok((st, _))) => {
+                        let hh = *hh;
+                        self.streams.insert(*c, (hh, st));
+                        obs("ok".into())
+                    }
+                    Poll::Ready(Err(e)) => obs(format!("err {}", err_tok(&e))),
+                    Poll::Pending => obs("wouldblock".into()),
+                }
+            }
+            SOp::TWrite { c, n, .. } => {
+                let Some((hh, st)) = self.streams.get(c) else { return obs("noslot".into()) };
+                self.cur(*hh);
+                let buf = vec![0x5au8; *n as usize];
+                match st.try_write(&buf) {
+                    Ok(k) => obs(format!("ok {k}")),
+                    Err(e) => obs(format!("err {}", err_tok(&e))),
+                }
+            }
+            SOp::TRead { c, .. } => {
+                let Some((hh, st)) = self.streams.get(c) else { return obs("noslot".into()) };
+                self.cur(*hh);
+                let mut buf = vec![0u8; 65536];
+                match st.try_read(&mut buf) {
+                    Ok(k) => obs(format!("ok {k}")),
+                    Err(e) => obs(format!("err {}", err_tok(&e))),
+                }
+            }
+            SOp::TClose { c, .. } => {
+                if let Some((hh, st)) = self.streams.remove(c) {
+                    self.cur(hh);
+                    drop(st);
+                    obs("ok".into())
+                } else if let Some((hh, f)) = self.connecting.remove(c) {
+                    self.cur(hh);
+                    drop(f);
+                    obs("ok".into())
+                } else {
+                    obs("noslot".into())
+                }
+            }
+            SOp::Step => {
+                let Some(g) = &self.guard else { return obs("err notentered".into()) };
+                let mut out: Vec<Packet> = Vec::new();
+                g.egress_all(&mut out);
+                let descs: Vec<String> = out.iter().map(desc).collect();
+                let mut lines = vec![format!("ORA egress {}", join(&descs, " "))];
+                for p in out {
+                    let before = self.sh.borrow().rlog.len();
+                    let v = V::of(g.evaluate(&p));
+                    let sh = self.sh.borrow();
+                    let ents: Vec<String> = sh.rlog[before..].iter().map(|e| format!("r{}={}", e.label, e.v.tok())).collect();
+                    let foreign = sh.rlog[before..].iter().any(|e| e.desc != desc(&p));
+                    drop(sh);
+                    lines.push(format!(
+                        "OBS eval {} {} {}{}",
+                        desc(&p),
+                        join(&ents, ","),
+                        v.tok(),
+                        if foreign { " foreign" } else { "" }
+                    ));
+                    if v != V::X {
+                        g.deliver(p);
+                    }
+                }
+                lines
+            }
+            SOp::Drain => {
+                let mut parts = vec![];
+                let ids: Vec<u32> = self.udp.keys().copied().collect();
+                for id in ids {
+                    let (h, sock) = self.udp.get(&id).unwrap();
+                    self.cur(*h);
+                    let mut got = vec![];
+                    let mut buf = [0u8; 64];
+                    while let Ok((n, _from)) = sock.try_recv_from(&mut buf) {
+                        got.push(tag_of(&buf[..n]).to_string());
+                    }
+                    if !got.is_empty() {
+                        parts.push(format!("h{}.s{}={}", h, id, got.join(",")));
+                    }
+                }
+                obs(join(&parts, " "))
+            }
+        }
+    }
+}
+
+fn run_wire(lay: &Layout, ops: &[SOp]) -> Vec<String> {
+    let mut w = WireWorld::new(lay);
+    let mut lines = vec![lay.cfg_line()];
+    for op in ops {
+        lines.push(op.line());
+        lines.extend(w.exec(op));
+    }
+    drop(w);
+    lines
+}
+
+// ------------------------------------------------------------------ fixture families
+
+struct HostPlan {
+    h: usize,
+    script: Vec<Vec<SOp>>, // per step
+    recv: Vec<(u32, Ip, u16)>,
+    lsn: Vec<(u32, Ip, u16)>,
+    total_steps: usize,
+    finish: bool,
+}
+
+async fn host_task(plan: HostPlan, sh: Sh) {
+    {
+        let mut s = sh.borrow_mut();
+        if s.start.is_none() {
+            s.start = Some(tokio::time::Instant::now());
+        }
+    }
+    let h = plan.h;
+    let mut udp: BTreeMap<u32, UdpSocket> = BTreeMap::new();
+    for (s, ip, port) in &plan.recv {
+        if let Ok(sock) = UdpSocket::bind(ip.sa(*port)).await {
+            udp.insert(*s, sock);
+        }
+    }
+    let mut lsn: Vec<TcpListener> = Vec::new();
+    for (_s, ip, port) in &plan.lsn {
+        if let Ok(l) = TcpListener::bind(ip.sa(*port)).await {
+            lsn.push(l);
+        }
+    }
+    let mut accepted: Vec<TcpStream> = Vec::new();
+    let mut streams: BTreeMap<u32, TcpStream> = BTreeMap::new();
+    let mut connecting: BTreeMap<u32, Pin<Box<dyn Future<Output = std::io::Result<TcpStream>>>>> = BTreeMap::new();
+    for step in 0..plan.total_steps {
+        let now = sh.borrow().now_us();
+        // 1. what arrived since the last step
+        for (s, sock) in &udp {
+            let mut buf = [0u8; 64];
+            while let Ok((n, _)) = sock.try_recv_from(&mut buf) {
+                sh.borrow_mut().arrivals.push((now, h, *s, tag_of(&buf[..n])));
+            }
+        }
+        for l in &lsn {
+            loop {
+                let r = {
+                    let mut f = Box::pin(l.accept());
+                    poll_once(f.as_mut())
+                };
+                match r {
+                    Poll::Ready(Ok((st, _))) => accepted.push(st),
+                    _ => break,
+                }
+            }
+        }
+        for st in &accepted {
+            let mut buf = vec![0u8; 65536];
+            while let Ok(n) = st.try_read(&mut buf) {
+                if n == 0 {
+                    break;
+                }
+                sh.borrow_mut().tcp_read += n as u64;
+            }
+        }
+        let ids: Vec<u32> = connecting.keys().copied().collect();
+        for id in ids {
+            let mut f = connecting.remove(&id).unwrap();
+            match poll_once(f.as_mut()) {
+                Poll::Ready(Ok(st)) => {
+                    streams.insert(id, st);
+                }
+                Poll::Ready(Err(_)) => {}
+                Poll::Pending => {
+                    connecting.insert(id, f);
+                }
+            }
+        }
+        // 2. this step's operations
+        if let Some(ops) = plan.script.get(step) {
+            for op in ops {
+                let obs: String = match op {
+                    SOp::Install { spec, .. } => {
+                        let g = rule(mk_rule(spec.clone(), sh.clone()));
+                        sh.borrow_mut().guards.insert(spec.label, g);
+                        "ok".into()
+                    }
+                    SOp::GDrop { label, .. } => {
+                        let g = sh.borrow_mut().guards.remove(label);
+                        match g {
+                            Some(g) => {
+                                drop(g);
+                                "ok".into()
+                            }
+                            None => "noguard".into(),
+                        }
+                    }
+                    SOp::Forget { label, .. } => {
+                        let g = sh.borrow_mut().guards.remove(label);
+                        match g {
+                            Some(g) => {
+                                g.forget();
+                                "ok".into()
+                            }
+                            None => "noguard".into(),
+                        }
+                    }
+                    SOp::USend { s, ip, port, tag, .. } => match udp.get(s) {
+                        Some(sock) => match sock.try_send_to(&tag_bytes(*tag), ip.sa(*port)) {
+                            Ok(_) => "ok".into(),
+                            Err(e) => format!("err {}", err_tok(&e)),
+                        },
+                        None => "noslot".into(),
+                    },
+                    SOp::TConnect { c, ip, port, .. } => {
+                        let mut fut: Pin<Box<dyn Future<Output = std::io::Result<TcpStream>>>> =
+                            Box::pin(TcpStream::connect(ip.sa(*port)));
+                        match poll_once(fut.as_mut()) {
+                            Poll::Ready(Ok(st)) => {
+                                streams.insert(*c, st);
+                                "ok".into()
+                            }
+                            Poll::Ready(Err(e)) => format!("err {}", err_tok(&e)),
+                            Poll::Pending => {
+                                connecting.insert(*c, fut);
+                                "pending".into()
+                            }
+                        }
+                    }
+                    SOp::TWrite { c, n, .. } => match streams.get(c) {
+                        Some(st) => match st.try_write(&vec![0x5au8; *n as usize]) {
+                            Ok(k) => {
+                                sh.borrow_mut().tcp_written += k as u64;
+                                format!("ok {k}")
+                            }
+                            Err(e) => format!("err {}", err_tok(&e)),
+                        },
+                        None => "noslot".into(),
+                    },
+                    _ => "unsupported".into(),
+                };
+                sh.borrow_mut().oplog.push((now, op.line(), obs));
+            }
+        }
+        tokio::time::sleep(Duration::from_micros(TICK_US)).await;
+    }
+    if !plan.finish {
+        std::future::pending::<()>().await;
+    }
+}
+
+fn is_local_to(lay: &Layout, h: usize, ip: Ip) -> bool {
+    ip.is_loopback() || lay.addrs[h].contains(&ip)
+}
+
+fn run_fixture(lay: &Layout, scripts: Vec<Vec<Vec<SOp>>>, st: &mut Stats) -> Vec<String> {
+    let sh: Sh = Rc::new(RefCell::new(Shared::default()));
+    let nh = lay.addrs.len();
+    let plan = |h: usize| HostPlan {
+        h,
+        script: scripts[h].clone(),
+        recv: lay.recv.iter().filter(|r| r.0 == h).map(|r| (r.1, r.2, r.3)).collect(),
+        lsn: lay.lsn.iter().filter(|r| r.0 == h).map(|r| (r.1, r.2, r.3)).collect(),
+        total_steps: lay.steps,
+        finish: h == nh - 1,
+    };
+    if lay.fixture == "lo" {
+        fixture::lo(host_task(plan(0), sh.clone()));
+    } else {
+        let mut cs = ClientServer::new();
+        for h in 0..nh - 1 {
+            let ips: Vec<std::net::IpAddr> = lay.addrs[h].iter().map(|x| x.to_ip()).collect();
+            cs = cs.server(ips, host_task(plan(h), sh.clone()));
+        }
+        let ips: Vec<std::net::IpAddr> = lay.addrs[nh - 1].iter().map(|x| x.to_ip()).collect();
+        cs.run(ips, host_task(plan(nh - 1), sh.clone()));
+    }
+    // leftover guards: the Net is gone, dropping them is a no-op
+    sh.borrow_mut().guards.clear();
+
+    let s = sh.borrow();
+    // was rule r0 installed first and for good? then its log is the egress record
+    let tap = s.oplog.iter().any(|(t, l, o)| *t == 0 && l.contains(" install r0 ") && o == "ok")
+        && s.oplog.iter().any(|(_, l, _)| l.contains(" forget r0"))
+        && !s.oplog.iter().any(|(_, l, _)| l.contains(" gdrop r0"));
+    let mut lines = vec![lay.cfg_line()];
+    for k in 0..(lay.steps as u64).saturating_sub(1) {
+        let t_ops = k * TICK_US;
+        let t_tick = (k + 1) * TICK_US;
+        let mut derived: Vec<(usize, String)> = Vec::new();
+        for (t, l, o) in s.oplog.iter().filter(|(t, _, _)| *t == t_ops) {
+            let _ = t;
+            lines.push(l.clone());
+            lines.push(format!("OBS {o}"));
+            if let Some(SOp::USend { h, s: slot, ip, port, tag }) = SOp::parse(l) {
+                if o == "ok" && !is_local_to(lay, h, ip) {
+                    if let Some(r) = lay.recv.iter().find(|r| r.0 == h && r.1 == slot) {
+                        derived.push((h, format!("u/{}:{}/{}:{}/{}", r.2.tok(), r.3, ip.tok(), port, tag)));
+                    }
+                }
+            }
+        }
+        lines.push(format!("OP ctl tick {}", k + 1));
+        let ents: Vec<&RuleLog> = s.rlog.iter().filter(|e| e.t_us == t_tick).collect();
+        // group the log into packets
+        let mut groups: Vec<(String, Vec<String>)> = Vec::new();
+        for e in &ents {
+            let start_new = match groups.last() {
+                None => true,
+                Some((d, _)) => (tap && e.label == 0) || *d != e.desc,
+            };
+            if start_new {
+                groups.push((e.desc.clone(), vec![]));
+            }
+            groups.last_mut().unwrap().1.push(format!("r{}={}", e.label, e.v.tok()));
+        }
+        let egress: Vec<String> = if tap {
+            groups.iter().map(|g| g.0.clone()).collect()
+        } else {
+            derived.sort_by_key(|d| d.0);
+            derived.iter().map(|d| d.1.clone()).collect()
+        };
+        lines.push(format!("ORA egress {}", join(&egress, " ")));
+        let mut gi = 0;
+        for d in &egress {
+            if gi < groups.len() && groups[gi].0 == *d {
+                lines.push(format!("OBS eval {} {}", d, join(&groups[gi].1, ",")));
+                gi += 1;
+            } else {
+                lines.push(format!("OBS eval {} -", d));
+            }
+            st.evals += 1;
+        }
+        while gi < groups.len() {
+            lines.push(format!("OBS eval {} {} unexpected", groups[gi].0, join(&groups[gi].1, ",")));
+            gi += 1;
+        }
+        let mut by_sock: BTreeMap<(usize, u32), Vec<String>> = BTreeMap::new();
+        for (t, h, sl, tag) in s.arrivals.iter() {
+            if *t == t_tick {
+                by_sock.entry((*h, *sl)).or_default().push(tag.to_string());
+                st.arrivals += 1;
+            }
+        }
+        for ((h, sl), tags) in by_sock {
+            lines.push(format!("OBS arrive h{h}.s{sl}={}", tags.join(",")));
+        }
+    }
+    // anything observed at an instant that is not a tick boundary is itself a finding
+    for (t, h, sl, tag) in s.arrivals.iter() {
+        if *t % TICK_US != 0 || *t == 0 || *t >= lay.steps as u64 * TICK_US {
+            lines.push(format!("OBS stray arrive h{h}.s{sl}={tag} t={t}"));
+        }
+    }
+    for e in s.rlog.iter() {
+        if e.t_us % TICK_US != 0 || e.t_us == 0 {
+            lines.push(format!("OBS stray eval r{} {} t={}", e.label, e.desc, e.t_us));
+        }
+        *st.verdicts.entry(e.v.tok().chars().next().unwrap().to_string()).or_insert(0) += 1;
+    }
+    lines.push(format!("ORA tcp written={} read={}", s.tcp_written, s.tcp_read));
+    lines
+}
+
+// ------------------------------------------------------------------ generators
+
+const DELAYS: &[u64] = &[0, 300, 700, 1000, 1000, 1500, 2000, 2000, 3000, 5000];
+
+fn gen_v(rng: &mut Rng, allow_drop: bool) -> V {
+    match rng.weighted(&[40, 40, if allow_drop { 20 } else { 0 }]) {
+        0 => V::P,
+        1 => V::D(*rng.pick(DELAYS)),
+        _ => V::X,
+    }
+}
+
+fn gen_spec(rng: &mut Rng, label: u32, tcp_drop: bool) -> RuleSpec {
+    let n = 1 + rng.below(4);
+    let table = (0..n).map(|_| gen_v(rng, true)).collect();
+    let tcp = match rng.weighted(&[60, 30, if tcp_drop { 10 } else { 0 }]) {
+        0 => V::P,
+        1 => V::D(*rng.pick(&[0u64, 300, 1000, 1500])),
+        _ => V::X,
+    };
+    RuleSpec { label, table, tcp }
+}
+
+fn gen_layout(rng: &mut Rng, fixture: &str) -> Layout {
+    let addrs: Vec<Vec<Ip>> = if fixture == "lo" {
+        vec![vec![]]
+    } else {
+        match rng.below(3) {
+            0 => vec![vec![Ip::v4(10), Ip::v4(11)], vec![Ip::v4(20)], vec![Ip::v4(30), Ip::v6(30)]],
+            1 => vec![vec![Ip::v4(10), Ip::v6(10)], vec![Ip::v4(20), Ip::v6(20)]],
+            _ => vec![vec![Ip::v4(10)], vec![Ip::v6(20), Ip::v4(20)], vec![Ip::v4(30)]],
+        }
+    };
+    let mut recv = vec![];
+    let mut lsn = vec![];
+    let mut slot = 1u32;
+    for (h, a) in addrs.iter().enumerate() {
+        for ip in a {
+            recv.push((h, slot, *ip, 5000));
+            slot += 1;
+        }
+        recv.push((h, slot, Ip::v4(1), 5000));
+        slot += 1;
+        if fixture == "lo" {
+            recv.push((h, slot, Ip::v6(1), 5000));
+            slot += 1;
+            recv.push((h, slot, Ip::v4(2), 5000));
+            slot += 1;
+        }
+        if let Some(ip) = a.first() {
+            lsn.push((h, slot, *ip, 80));
+            slot += 1;
+        } else {
+            lsn.push((h, slot, Ip::v4(1), 80));
+            slot += 1;
+        }
+    }
+    Layout { fixture: fixture.into(), addrs, recv, lsn, steps: 0 }
+}
+
+struct Gen<'a> {
+    rng: &'a mut Rng,
+    lay: Layout,
+    next_label: u32,
+    live_guards: Vec<u32>,
+    next_tag: u32,
+    next_conn: u32,
+    conns: Vec<(usize, u32)>,
+}
+
+impl<'a> Gen<'a> {
+    fn send(&mut self, h: usize) -> Option<SOp> {
+        let mine: Vec<(usize, u32, Ip, u16)> = self.lay.recv.iter().filter(|r| r.0 == h).cloned().collect();
+        if mine.is_empty() {
+            return None;
+        }
+        let src = *self.rng.pick(&mine);
+        // destination: mostly a receiver of the same family somewhere, sometimes nobody
+        let mut dsts: Vec<(Ip, u16)> = self
+            .lay
+            .recv
+            .iter()
+            .filter(|r| r.2.v6 == src.2.v6 && (r.0 == h || !r.2.is_loopback()))
+            .map(|r| (r.2, r.3))
+            .collect();
+        dsts.push((Ip { v6: src.2.v6, n: 90 }, 5000));
+        dsts.push((dsts[0].0, 5009));
+        let d = *self.rng.pick(&dsts);
+        let tag = self.next_tag;
+        self.next_tag += 1;
+        Some(SOp::USend { h, s: src.1, ip: d.0, port: d.1, tag })
+    }
+}
+
+pub fn gen_case(family: &str, rng: &mut Rng, st: &mut Stats) -> Vec<String> {
+    st.cases += 1;
+    let lay0 = gen_layout(rng, family);
+    let nh = lay0.addrs.len();
+    let mut g = Gen { rng, lay: lay0, next_label: 1, live_guards: vec![], next_tag: 1, next_conn: 1, conns: vec![] };
+    if family == "wire" {
+        let mut ops: Vec<SOp> = Vec::new();
+        for _ in 0..g.rng.below(3) {
+            let spec = gen_spec(g.rng, g.next_label, true);
+            g.next_label += 1;
+            ops.push(SOp::Install { h: None, spec, mode: "perm".into() });
+        }
+        ops.push(SOp::Enter);
+        let n = 10 + g.rng.below(40);
+        for _ in 0..n {
+            let h = g.rng.below(nh);
+            match g.rng.weighted(&[40, 12, if g.live_guards.is_empty() { 0 } else { 9 }, if g.live_guards.is_empty() { 0 } else { 3 }, 18, 6, 4, 3, 3, 2]) {
+                0 => {
+                    let burst = 1 + g.rng.below(3);
+                    for _ in 0..burst {
+                        if let Some(op) = g.send(h) {
+                            ops.push(op);
+                        }
+                    }
+                }
+                1 => {
+                    let spec = gen_spec(g.rng, g.next_label, true);
+                    g.live_guards.push(g.next_label);
+                    g.next_label += 1;
+                    let (hh, mode) = if g.rng.chance(1, 2) { (None, "sguard") } else { (Some(h), "guard") };
+                    ops.push(SOp::Install { h: hh, spec, mode: mode.into() });
+                }
+                2 => {
+                    let i = g.rng.below(g.live_guards.len());
+                    let label = g.live_guards.remove(i);
+                    ops.push(SOp::GDrop { h: if g.rng.chance(1, 2) { None } else { Some(h) }, label });
+                }
+                3 => {
+                    let i = g.rng.below(g.live_guards.len());
+                    let label = g.live_guards.remove(i);
+                    ops.push(SOp::Forget { h: None, label });
+                }
+                4 => {
+                    ops.push(SOp::Step);
+                    if g.rng.chance(1, 2) {
+                        ops.push(SOp::Drain);
+                    }
+                }
+                5 => {
+                    let l = *g.rng.pick(&g.lay.lsn.clone());
+                    let c = g.next_conn;
+                    g.next_conn += 1;
+                    g.conns.push((h, c));
+                    ops.push(SOp::TConnect { h, c, ip: l.2, port: l.3 });
+                }
+                6 => {
+                    if let Some((hh, c)) = g.conns.last().cloned() {
+                        ops.push(SOp::TPoll { h: hh, c });
+                    }
+                }
+                7 => {
+                    let l = *g.rng.pick(&g.lay.lsn.clone());
+                    let c = g.next_conn;
+                    g.next_conn += 1;
+                    g.conns.push((l.0, c));
+                    ops.push(SOp::TAccept { h: l.0, l: l.1, c });
+                }
+                8 => {
+                    if !g.conns.is_empty() {
+                        let (hh, c) = *g.rng.pick(&g.conns.clone());
+                        let n = *g.rng.pick(&[1u32, 100, 2000]);
+                        ops.push(SOp::TWrite { h: hh, c, n });
+                    }
+                }
+                _ => {
+                    if !g.conns.is_empty() {
+                        let (hh, c) = *g.rng.pick(&g.conns.clone());
+                        if g.rng.chance(1, 2) {
+                            ops.push(SOp::TRead { h: hh, c });
+                        } else {
+                            ops.push(SOp::TClose { h: hh, c });
+                        }
+                    }
+                }
+            }
+        }
+        for _ in 0..4 {
+            ops.push(SOp::Step);
+        }
+        ops.push(SOp::Drain);
+        for op in &ops {
+            st.op(op.line().split_whitespace().nth(2).unwrap_or("?"));
+        }
+        let lay = g.lay.clone();
+        return run_wire(&lay, &ops);
+    }
+
+    // fixture families: a script per host and step
+    let active = 6 + g.rng.below(14);
+    let tail = 8;
+    g.lay.steps = active + tail;
+    let mut scripts: Vec<Vec<Vec<SOp>>> = vec![vec![vec![]; g.lay.steps]; nh];
+    let client = nh - 1;
+    let tap = g.rng.chance(3, 4);
+    if tap {
+        scripts[client][0].push(SOp::Install { h: Some(client), spec: RuleSpec { label: 0, table: vec![V::P], tcp: V::P }, mode: "guard".into() });
+        scripts[client][0].push(SOp::Forget { h: Some(client), label: 0 });
+    }
+    let with_tcp = tap && family == "cs" && g.rng.chance(1, 2);
+    for step in 0..active {
+        for h in 0..nh {
+            let nops = g.rng.below(4);
+            for _ in 0..nops {
+                let w_inst = if step == 0 && h != client { 0 } else { 14 };
+                match g.rng.weighted(&[55, w_inst, if g.live_guards.is_empty() { 0 } else { 8 }, if g.live_guards.is_empty() { 0 } else { 3 }, if with_tcp { 10 } else { 0 }]) {
+                    0 => {
+                        let burst = 1 + g.rng.below(4);
+                        for _ in 0..burst {
+                            if let Some(op) = g.send(h) {
+                                scripts[h][step].push(op);
+                            }
+                        }
+                    }
+                    1 => {
+                        let spec = gen_spec(g.rng, g.next_label, false);
+                        g.live_guards.push(g.next_label);
+                        g.next_label += 1;
+                        scripts[h][step].push(SOp::Install { h: Some(h), spec, mode: "guard".into() });
+                    }
+                    2 => {
+                        // only guards installed in an earlier step: same-step order across hosts is not scripted
+                        let i = g.rng.below(g.live_guards.len());
+                        let label = g.live_guards[i];
+                        let installed_now = scripts.iter().any(|hs| hs[step].iter().any(|o| matches!(o, SOp::Install { spec, .. } if spec.label == label)));
+                        if !installed_now {
+                            g.live_guards.remove(i);
+                            scripts[h][step].push(SOp::GDrop { h: Some(h), label });
+                        }
+                    }
+                    3 => {
+                        let i = g.rng.below(g.live_guards.len());
+                        let label = g.live_guards[i];
+                        let installed_now = scripts.iter().any(|hs| hs[step].iter().any(|o| matches!(o, SOp::Install { spec, .. } if spec.label == label)));
+                        if !installed_now {
+                            g.live_guards.remove(i);
+                            scripts[h][step].push(SOp::Forget { h: Some(h), label });
+                        }
+                    }
+                    _ => {
+                        if h == client {
+                            if g.conns.is_empty() || g.rng.chance(1, 4) {
+                                let cands: Vec<_> = g.lay.lsn.iter().filter(|l| l.0 != client).cloned().collect();
+                                if !cands.is_empty() {
+                                    let l = *g.rng.pick(&cands);
+                                    let c = g.next_conn;
+                                    g.next_conn += 1;
+                                    g.conns.push((h, c));
+                                    scripts[h][step].push(SOp::TConnect { h, c, ip: l.2, port: l.3 });
+                                }
+                            } else {
+                                let (hh, c) = *g.rng.pick(&g.conns.clone());
+                                let n = *g.rng.pick(&[1u32, 50, 3000]);
+                                scripts[hh][step].push(SOp::TWrite { h: hh, c, n });
+                            }
+                        }
+                    }
+                }
+            }
+        }
+    }
+    for hs in &scripts {
+        for ops in hs {
+            for op in ops {
+                st.op(op.line().split_whitespace().nth(2).unwrap_or("?"));
+            }
+        }
+    }
+    let lay = g.lay.clone();
+    run_fixture(&lay, scripts, st)
+}
+
+pub fn replay(family: &str, lines: &[String]) -> Vec<String> {
+    let cfg = lines.iter().find(|l| l.starts_with("CFG")).cloned().unwrap_or_default();
+    let lay = Layout::parse(&cfg);
+    let mut st = Stats::default();
+    if family == "wire" || lay.fixture == "wire" {
+        let ops: Vec<SOp> = lines.iter().filter_map(|l| SOp::parse(l)).collect();
+        return run_wire(&lay, &ops);
+    }
+    let nh = lay.addrs.len();
+    let mut scripts: Vec<Vec<Vec<SOp>>> = vec![vec![vec![]; lay.steps]; nh];
+    let mut step = 0usize;
+    for l in lines {
+        if l.starts_with("OP ctl tick") {
+            step += 1;
+            continue;
+        }
+        if let Some(op) = SOp::parse(l) {
+            let h = match &op {
+                SOp::Install { h, .. } | SOp::GDrop { h, .. } | SOp::Forget { h, .. } => h.unwrap_or(nh - 1),
+                SOp::USend { h, .. } | SOp::TConnect { h, .. } | SOp::TWrite { h, .. } => *h,
+                _ => continue,
+            };
+            if h < nh && step < lay.steps {
+                scripts[h][step].push(op);
+            }
+        }
+    }
+    run_fixture(&lay, scripts, &mut st)
+}
